@@ -24,10 +24,12 @@ TransposedCell(ht, c, iv, up) ==
   ELSE IF c.k = "note" THEN LET m == TransposedNote(c.n, iv, up) IN [c EXCEPT !.n = m, !.t = NoteText(m)]
   ELSE IF c.k = "chord" THEN LET ms == [i \in 1..Len(c.ns) |-> TransposedNote(c.ns[i], iv, up)] IN [c EXCEPT !.ns = ms, !.t = ChordText(ms)]
   ELSE c
-TransposedStages(iv, up) ==
-  [s \in 1..Len(stages) |-> [i \in 1..Len(stages[s]) |->
-      LET n == stages[s][i] IN
-      IF n.hdr = NoPtr \/ s = 1 THEN n ELSE [n EXCEPT !.cell = TransposedCell(TypeOf(n), n.cell, iv, up)]]]
+TypeIn(st, n) == st[n.hdr[1]][n.hdr[2]].cell.t
+TransposedOf(st, iv, up) ==
+  [s \in 1..Len(st) |-> [i \in 1..Len(st[s]) |->
+      LET n == st[s][i] IN
+      IF n.hdr = NoPtr \/ s = 1 THEN n ELSE [n EXCEPT !.cell = TransposedCell(TypeIn(st, n), n.cell, iv, up)]]]
+TransposedStages(iv, up) == TransposedOf(stages, iv, up)
 AllSpellable(iv, up) ==
   \A s \in 2..Len(stages) : \A i \in 1..Len(stages[s]) :
      LET n == stages[s][i] IN
@@ -35,5 +37,16 @@ AllSpellable(iv, up) ==
         (CASE n.cell.k = "note" -> NoteSpellable(n.cell.n, iv, up)
            [] n.cell.k = "chord" -> \A j \in 1..Len(n.cell.ns) : NoteSpellable(n.cell.ns[j], iv, up)
            [] OTHER -> TRUE)
+(* ------------------------------ concatenation --------------------------- *)
+\* fragments = consecutive groups of lines; ends[i] = stage of the last line of fragment i.  The document is the import of the
+\* joined lines; pair i = (0 or measures before the fragment + 1, measures up to the end of the fragment)
+MeasuresThrough(st) == Cardinality({j \in 1..Len(mstarts) : mstarts[j] <= st})
+ConcatPairs(ends) == [i \in 1..Len(ends) |-> <<(IF i = 1 THEN 0 ELSE MeasuresThrough(ends[i - 1]) + 1), MeasuresThrough(ends[i])>>]
+\* what exporting from_measure = lo, to_measure = hi covers (from_measure = 0 means "from the start")
+PairFirstStage(lo) == IF lo = 0 THEN 2 ELSE mstarts[lo]
+PairLastStage(hi) == IF hi < Len(mstarts) THEN mstarts[hi + 1] ELSE Len(stages)
+PairData(pair, o) == DataLines(GridFrom(PairFirstStage(pair[1]), PairLastStage(pair[2]), o))
+FragmentDataLines(ends, i, o) == DataLines(GridFrom((IF i = 1 THEN 2 ELSE ends[i - 1] + 1), ends[i], o))
+
 TransposedGrid(iv, up, o) == On(TransposedStages(iv, up), mstarts)!ExportGrid(o)
 =============================================================================
